@@ -67,6 +67,8 @@ def gen_sequence(rng, syms):
         E.op("pow", E.num(2), E.sym(it)),
         E.op("mul", E.sym(it), E.sym(it)),
         p(),
+        E.fun("f", E.sym(it)),                                  # an unresolved function of the iterator: with a numeric count and
+        E.op("add", E.fun("f", E.sym(it)), E.num(1)),           # a numeric child cost the compiled sum has no free symbol at all
     ])
     return {"kind": kind, "term_expression": term, "iterator_symbol": it}
 
@@ -153,6 +155,9 @@ class Gen:
                     x["type"] = "multiplicative" if x["type"] == "additive" else "additive"
         if self.qubits and rng.random() < 0.5:
             resources.append({"name": "local_ancillae", "type": "qubits", "value": gen_size_expr(rng, scope)})
+        if self.qubits and rng.random() < 0.12:
+            # a hand-written estimate under the very name of the derived resource: the derivation must replace it
+            resources.append({"name": "qubit_highwater", "type": "qubits", "value": gen_size_expr(rng, scope)})
         if params and rng.random() < 0.15:
             # a resource that bears the name of one of the routine's own parameters (`depth` the parameter, `depth` the cost):
             # an unlinked parameter is promoted to `child.depth`, the very text that also names the child's resource
@@ -288,6 +293,8 @@ class Gen:
                 resources.append({"name": "own", "type": "additive", "value": gen_expr(rng, scope_l, 2)})
         if self.qubits and rng.random() < 0.4 and not is_rep:
             resources.append({"name": "local_ancillae", "type": "qubits", "value": gen_size_expr(rng, scope)})
+        if self.qubits and rng.random() < 0.12 and not is_rep:
+            resources.append({"name": "qubit_highwater", "type": "qubits", "value": gen_size_expr(rng, scope)})
         node = {"name": name, "type": rng.choice([None, "comp"]), "input_params": params, "local_variables": locals_,
                 "linked_params": linked_params, "ports": ports, "resources": resources, "connections": connections,
                 "repetition": repetition, "children": children}
